@@ -8,6 +8,7 @@ Virtual time: every time.time() call in pool/base.py advances the clock by one s
 documented assumption); Sleep jumps past pool_recycle.  No wall clock anywhere.
 """
 import gc
+import sys
 import warnings
 
 from checks import pool_fakedbapi as fdb
@@ -81,6 +82,15 @@ class SeqDriver:
                               reset={"rollback": "rollback", "commit": "commit", "none": None}[c["reset"]], is_async=c["async_"])
         if c["ck"]:
             self.event.listen(self.pool, "checkout", self._on_checkout)
+        if c.get("close_listener"):
+            self.event.listen(self.pool, "close", self._on_close)
+
+    def _on_close(self, dbapi_conn, rec):
+        """`close` pool event: runs before the DBAPI close(); the edge's plan says whether it raises ("lclose" entry)"""
+        d = self.dbapi
+        d.calls.append(("lclose", getattr(dbapi_conn, "id", 0)))
+        if d.plan.fault("lclose"):
+            raise fdb.Error("close listener failed")
 
     def _on_checkout(self, dbapi_conn, rec, fairy):
         o = self.evs.pop(0) if self.evs else "ok"
@@ -137,6 +147,8 @@ class SeqDriver:
                 res, ret = None, "InvalidRequestError"
             except fdb.Error:
                 res, ret = None, "Error"
+            except fdb.Interrupted:
+                res, ret = None, "Base"
         self.warned = [str(x.message) for x in w]
         return ret, res
 
@@ -147,7 +159,7 @@ class SeqDriver:
         if a == "Sleep":
             self.clock.now += RECYCLE + 10
             return self._compare(act, to, "ok", None)
-        d.plan.set_script(act["plan"])
+        d.plan.set_script([{"ok": False, "fail": True, "raise": True, "base": "base"}[x] for x in act["plan"]])
         d.take_calls()
         self.evs = list(act["evs"])
         self.seen_evs = []
@@ -158,10 +170,21 @@ class SeqDriver:
                 self.handles.append(res)
         elif a == "Close":
             ret, _ = self._call(self.handles[h - 1].close)
+            if ret in ("Base", "Error"):
+                self.handles[h - 1] = None      # an exception escaped from close(): the caller gives the object up (spec: gone)
         elif a == "Drop":
+            unraisable = []
+            hook = sys.unraisablehook
+            sys.unraisablehook = lambda u: unraisable.append(getattr(u.exc_type, "__name__", "?"))
+
             def drop():
                 self.handles[h - 1] = None      # the only reference: the weakref callback runs _finalize_fairy right here
-            ret, _ = self._call(drop, in_loop=False)   # the garbage collector does not run inside the event loop's greenlet
+            try:
+                ret, _ = self._call(drop, in_loop=False)   # the garbage collector does not run inside the event loop's greenlet
+            finally:
+                sys.unraisablehook = hook
+            if ret == "ok" and unraisable:
+                ret = "unraisable"              # an exception escaped inside the weakref callback
         elif a == "Invalidate":
             f = self.handles[h - 1]
             ret, _ = self._call(lambda: f.invalidate(soft=act["soft"]))
@@ -224,6 +247,9 @@ class SeqDriver:
             return "handle list out of step: program %d, spec %d" % (len(self.handles), len(to["hs"]))
         for i, hs in enumerate(to["hs"]):
             f = self.handles[i]
+            if hs["gone"] != (f is None):
+                return "handle %d: spec says %s, program %s" % (i + 1, "given up" if hs["gone"] else "still referenced",
+                                                                "dropped it" if f is None else "holds it")
             if hs["live"]:
                 if f is None or not f.is_valid:
                     return "handle %d: spec says checked out, real fairy is %s" % (i + 1, "gone" if f is None else "invalid")
